@@ -211,7 +211,7 @@ prop('C08',
          technique='model-based property testing (rapid) of send/receive/cancel/close histories against a FIFO of completed sends, in synctest bubbles',
          level_text=('Histories of sends, receives, cancel and close-by-sender with every capacity against a FIFO model, with the "never blocks the sender" clause decided at quiescent points '
                      'and the end-of-stream clauses decided by a full drain; backlog sizes up to hundreds exercise the node pool.'),
-         level_note='schedules sampled; one sender goroutine chain (send order is total)'))
+         level_note='schedules sampled; one chained sender (total send order) plus independent one-shot senders; racing windows are sampled by repetition (committed scenarios with 20000 attempts each)'))
 
 prop('C09',
      level='exploration',
